@@ -51,6 +51,12 @@ type aOp struct {
 type aWorld struct {
 	lateVersion *uint64
 
+	// migrate: every protocol version of the run enables both hash algorithms and the controller may build an
+	// operation under the other one (delta hash, next commitments); reveal values keep the algorithm of the commitment
+	// they open. curSt is the reference state before the event being generated.
+	migrate bool
+	curSt   *refmodel.State
+
 	k    *simkit.Kernel
 	prop string
 	hash uint
@@ -147,11 +153,18 @@ func runWorldA(rc *RunCtx, prop string) *RunResult {
 	// protocol versions: one or two; the second starts somewhere inside the run
 	maxDelta := uint(3000 + T.Draw(2000, "cfg.maxdelta"))
 
+	w.migrate = T.Draw(4, "cfg.migrate") == 0
+
 	mk := func(genesis uint64, timeDelta uint64) *simenv.Version {
 		p := simenv.DefaultProtocol(genesis)
 		p.MultihashAlgorithms = []uint{w.hash}
 
-		switch T.Draw(3, "cfg.bothhash") {
+		bh := T.Draw(3, "cfg.bothhash")
+		if w.migrate && bh == 0 {
+			bh = 1
+		}
+
+		switch bh {
 		case 1:
 			p.MultihashAlgorithms = []uint{w.hash, simenv.SHA2_256 + simenv.SHA2_512 - w.hash}
 		case 2: // the DID's algorithm is the protocol's second one (its suffix is then computed by the harness, see anchorCreate)
@@ -256,6 +269,10 @@ func (w *aWorld) newKey(role string) *workload.Key {
 	key := w.kg.New(kt, T.Draw(6, "key.nonce") == 0)
 	w.byCommit[key.Commitment(w.hash)] = key
 
+	if w.migrate {
+		w.byCommit[key.Commitment(w.otherHash())] = key
+	}
+
 	if role == "upd" {
 		w.updKeys = append(w.updKeys, key)
 	} else if role == "rec" {
@@ -263,6 +280,21 @@ func (w *aWorld) newKey(role string) *workload.Key {
 	}
 
 	return key
+}
+
+func (w *aWorld) otherHash() uint { return simenv.SHA2_256 + simenv.SHA2_512 - w.hash }
+
+// revealAlgFor: the algorithm under which key k's commitment is in force right now (else the DID's own algorithm).
+func (w *aWorld) revealAlgFor(k *workload.Key) uint {
+	if w.migrate && k != nil && w.curSt != nil {
+		for _, alg := range []uint{w.hash, w.otherHash()} {
+			if c := k.Commitment(alg); c == w.curSt.UpdateC || c == w.curSt.RecoveryC {
+				return alg
+			}
+		}
+	}
+
+	return w.hash
 }
 
 func (w *aWorld) nextMark() string {
@@ -346,6 +378,7 @@ func (w *aWorld) advance() uint64 {
 }
 
 type opPlan struct {
+	hash       uint // algorithm of the delta hash and the next commitments (0: the DID's own)
 	typ        operation.Type
 	key        *workload.Key // revealed key (nil for create)
 	nextUpd    *workload.Key
@@ -371,13 +404,20 @@ type opPlan struct {
 func (w *aWorld) build(p *opPlan) ([]byte, *refmodel.Op) {
 	m := &refmodel.Op{Type: refmodel.OpType(p.typ), Authentic: true, SuffixOK: true, Parses: true, Delta: p.delta, Patches: p.patches, From: p.from, Until: p.until}
 
+	opHash := w.hash
+	if p.hash != 0 {
+		opHash = p.hash
+	}
+
+	revealAlg := w.revealAlgFor(p.key)
+
 	nu, nr := p.nextUpdC, p.nextRecC
 	if nu == "" && p.nextUpd != nil {
-		nu = p.nextUpd.Commitment(w.hash)
+		nu = p.nextUpd.Commitment(opHash)
 	}
 
 	if nr == "" && p.nextRec != nil {
-		nr = p.nextRec.Commitment(w.hash)
+		nr = p.nextRec.Commitment(opHash)
 	}
 
 	m.NextUpdate, m.NextRecovery = nu, nr
@@ -398,7 +438,7 @@ func (w *aWorld) build(p *opPlan) ([]byte, *refmodel.Op) {
 	}
 
 	if p.key != nil {
-		m.RevealCommit = p.key.Commitment(w.hash)
+		m.RevealCommit = p.key.Commitment(revealAlg)
 	}
 
 	plain := p.delta == refmodel.DeltaOK && p.signWith == nil && p.revealOf == nil && !p.corruptSig && p.tamper == "" &&
@@ -410,7 +450,7 @@ func (w *aWorld) build(p *opPlan) ([]byte, *refmodel.Op) {
 
 	if plain {
 		// honest requests come from the repository's client library
-		spec := &workload.OpSpec{Type: p.typ, Suffix: w.suffix, Hash: w.hash, SignKey: p.key, NextUpdate: p.nextUpd, NextRecovery: p.nextRec,
+		spec := &workload.OpSpec{Type: p.typ, Suffix: w.suffix, Hash: opHash, RevealHash: revealAlg, SignKey: p.key, NextUpdate: p.nextUpd, NextRecovery: p.nextRec,
 			Patches: patches, From: p.from, Until: p.until}
 		if origin != nil {
 			spec.AnchorOrigin = origin
@@ -425,7 +465,7 @@ func (w *aWorld) build(p *opPlan) ([]byte, *refmodel.Op) {
 			panic(fmt.Sprintf("client library refused an honest request (%s): %v", p.kind, err))
 		}
 	} else {
-		raw := &workload.RawSpec{Type: p.typ, Suffix: w.suffix, Hash: w.hash, RevealKey: p.key, SignWith: p.signWith, RevealOf: p.revealOf,
+		raw := &workload.RawSpec{Type: p.typ, Suffix: w.suffix, Hash: opHash, RevealHash: revealAlg, RevealKey: p.key, SignWith: p.signWith, RevealOf: p.revealOf,
 			NextUpdateCommit: nu, NextRecoveryCommit: nr, Patches: patches, From: p.from, Until: p.until, CorruptSig: p.corruptSig, SignedSuffix: p.signedSuffix}
 		if origin != nil {
 			raw.AnchorOrigin = origin
@@ -564,6 +604,7 @@ func (w *aWorld) event() {
 	}
 
 	st, _ := refmodel.Resolve(w.modelOps())
+	w.curSt = st
 
 	// pick a party
 	var names []string
@@ -856,12 +897,18 @@ func (w *aWorld) legitNow(st *refmodel.State, typ operation.Type, key *workload.
 		return false
 	}
 
-	c := key.Commitment(w.hash)
-	if typ == operation.TypeUpdate {
-		return st.UpdateC == c
+	for _, alg := range []uint{w.hash, w.otherHash()} {
+		c := key.Commitment(alg)
+		if (typ == operation.TypeUpdate && st.UpdateC == c) || (typ != operation.TypeUpdate && st.RecoveryC == c) {
+			return true
+		}
+
+		if !w.migrate {
+			break
+		}
 	}
 
-	return st.RecoveryC == c
+	return false
 }
 
 func (w *aWorld) anchorHonest(st *refmodel.State, party string) {
@@ -927,6 +974,12 @@ func (w *aWorld) anchorHonest(st *refmodel.State, party string) {
 		p.nextRec = w.newKey("rec")
 	}
 
+	// hash migration: this operation is built under the protocol's other algorithm
+	if w.migrate && typ != operation.TypeDeactivate && T.Draw(4, "honest.otherhash") == 0 {
+		p.hash = []uint{w.hash, w.otherHash()}[T.Draw(2, "honest.otherhash.which")]
+		w.k.Count("probe:operation-under-the-other-hash-algorithm")
+	}
+
 	// rarely the controller commits its next update key to the key that is also its current recovery key
 	// (the two chains are independent; only create/recover refuse EQUAL update and recovery commitments)
 	if typ == operation.TypeUpdate && p.delta == refmodel.DeltaOK && T.Draw(10, "honest.sharedkey") == 0 {
@@ -943,13 +996,13 @@ func (w *aWorld) anchorHonest(st *refmodel.State, party string) {
 
 		if rk != nil {
 			for _, o := range w.ops {
-				if o.M.Type == refmodel.Update && o.M.RevealCommit == rk.Commitment(w.hash) {
+				if o.M.Type == refmodel.Update && (o.M.RevealCommit == rk.Commitment(w.hash) || o.M.RevealCommit == rk.Commitment(w.otherHash())) {
 					revealedByUpdate = true
 				}
 			}
 		}
 
-		if rk != nil && rk.Commitment(w.hash) != st.UpdateC && rk != p.key && !revealedByUpdate {
+		if rk != nil && rk.Commitment(w.hash) != st.UpdateC && rk.Commitment(w.otherHash()) != st.UpdateC && rk != p.key && !revealedByUpdate {
 			p.nextUpd = rk
 			w.k.Count("probe:update-key-equals-recovery-key")
 		}
@@ -991,7 +1044,7 @@ func (w *aWorld) anchorHonest(st *refmodel.State, party string) {
 				})
 				if err == nil {
 					treq = wrapped
-					tm = &refmodel.Op{Type: refmodel.Deactivate, Authentic: false, SuffixOK: false, Parses: true, RevealCommit: p.key.Commitment(w.hash),
+					tm = &refmodel.Op{Type: refmodel.Deactivate, Authentic: false, SuffixOK: false, Parses: true, RevealCommit: p.key.Commitment(w.revealAlgFor(p.key)),
 						From: p.from, Until: p.until, Label: "deactivate/recover-rewrapped"}
 					twin.kind = "recover-rewrapped-as-deactivate"
 				}
